@@ -17,6 +17,9 @@ I256 == T(INTEG, 12, 0)   I512 == T(INTEG, 14, 0)   I1 == T(INTEG, 2, 0)
 P256 == T(PRF, 5, 0)   P512 == T(PRF, 7, 0)
 D19 == T(DH, 19, 0)   D20 == T(DH, 20, 0)   D21 == T(DH, 21, 0)
 NOESN == T(ESN, 0, 0)
+\* the Key Length attribute is part of a transform's identity in BOTH directions (3.3.5): AES-CBC offered without it is not AES-CBC-128 / -256,
+\* an integrity transform offered with one is not the integrity transform without
+E0 == T(ENCR, 12, 0)   I256k == T(INTEG, 12, 256)
 
 RangeOf(s) == {s[i] : i \in 1..Len(s)}
 Types(p) == {p.transforms[i].type : i \in 1..Len(p.transforms)}
@@ -58,12 +61,12 @@ Cat4(a, b, c, d) == a \o b \o c \o d
 IkeLocal == {[proto |-> 1, num |-> 1, spi |-> <<>>, transforms |-> Cat4(e, i, p, d)] :
                e \in Lists({E128, E256}, 2), i \in {<<I256>>, <<I512, I256>>}, p \in {<<P256>>}, d \in Lists({D19, D20}, 2)}
 IkePeer  == {[proto |-> 1, num |-> n, spi |-> <<7, 7, 7, 7, 7, 7, 7, 7>>, transforms |-> Cat4(e, i, p, d)] : n \in {1},
-               e \in Lists({E128, E256}, 2) \cup {<<E3DES>>, <<E3DES, E256>>, <<E192>>}, i \in {<<I256>>, <<I512, I256>>, <<I1>>},
+               e \in Lists({E128, E256}, 2) \cup {<<E3DES>>, <<E3DES, E256>>, <<E192>>, <<E0>>, <<E0, E128>>}, i \in {<<I256>>, <<I512, I256>>, <<I1>>, <<I256k>>},
                p \in {<<P256>>}, d \in {<<D19>>, <<D20, D19>>, <<D21>>, <<>>}}
 ChildLocal == {[proto |-> pr, num |-> 1, spi |-> <<>>, transforms |-> Cat4(IF pr = 3 THEN e ELSE <<>>, i, d, <<NOESN>>)] :
                  pr \in {2, 3}, e \in Lists({E128, E256}, 2), i \in Lists({I256, I512}, 2), d \in {<<>>, <<D19>>, <<D20, D19>>}}
 ChildPeer == {[proto |-> pr, num |-> 1, spi |-> <<1, 2, 3, 4>>, transforms |-> Cat4(e, i, d, n)] :
-                 pr \in {2, 3}, e \in {<<>>, <<E128>>, <<E256, E128>>, <<E3DES>>}, i \in {<<I256>>, <<I512, I256>>, <<I1>>}, d \in {<<>>, <<D19>>, <<D21>>, <<D19, D20>>}, n \in {<<NOESN>>, <<>>}}
+                 pr \in {2, 3}, e \in {<<>>, <<E128>>, <<E256, E128>>, <<E3DES>>, <<E0>>}, i \in {<<I256>>, <<I512, I256>>, <<I1>>, <<I256k, I512>>}, d \in {<<>>, <<D19>>, <<D21>>, <<D19, D20>>}, n \in {<<NOESN>>, <<>>}}
 
 \* peer SA payloads: one proposal, or two (the second taken from a small subset so that the product stays enumerable)
 Ik(e, i, d) == [proto |-> 1, num |-> 1, spi |-> <<7, 7, 7, 7, 7, 7, 7, 7>>, transforms |-> Cat4(e, i, <<P256>>, d)]
